@@ -44,40 +44,120 @@ func (c *Ctx) builtinFns() []*builtinFn {
 		return nil
 	}
 	var out []*builtinFn
+	// a parameter-struct builder: `func (f floatUnaryFunction) build() schema.CallableFunction { …NewCallableFunction(f.id, …, f.handler) }`
+	type builder struct {
+		fd   *ast.FuncDecl
+		recv string // receiver variable
+		call *ast.CallExpr
+	}
+	builders := map[string]*builder{} // method name -> builder
+	isCtorCall := func(call *ast.CallExpr) (bool, bool) {
+		name := pl.calleeName(call)
+		if name != pkgSchema+".NewCallableFunction" && name != pkgSchema+".NewDynamicCallableFunction" {
+			return false, false
+		}
+		return true, strings.HasSuffix(name, "NewDynamicCallableFunction")
+	}
+	// mk builds the inventory entry of one constructor call; sub maps a receiver field of a builder to the expression
+	// the constructor wrote into the parameter struct (nil for a direct call).
+	mk := func(fd *ast.FuncDecl, call *ast.CallExpr, dynamic bool, sub func(ast.Expr) ast.Expr) *builtinFn {
+		bf := &builtinFn{ctor: fd, call: call, dynamic: dynamic}
+		bf.id, _ = pl.constStr(sub(call.Args[0]))
+		if cl, ok := sub(call.Args[1]).(*ast.CompositeLit); ok {
+			for _, el := range cl.Elts {
+				k, p := pl.schemaKindPattern(sub(el))
+				bf.paramKinds = append(bf.paramKinds, k)
+				bf.paramPats = append(bf.paramPats, p)
+			}
+		}
+		if bf.dynamic {
+			bf.handler = sub(call.Args[3])
+		} else {
+			bf.outKind, bf.outPattern = pl.schemaKindPattern(sub(call.Args[2]))
+			bf.handler = sub(call.Args[5])
+		}
+		return bf
+	}
+	ident := func(e ast.Expr) ast.Expr { return e }
 	for _, f := range pl.pkg.Syntax {
 		for _, d := range f.Decls {
 			fd, ok := d.(*ast.FuncDecl)
-			// a constructor is any package-level function that builds a callable function (whatever it is called)
-			if !ok || fd.Body == nil || fd.Recv != nil {
+			if !ok || fd.Body == nil {
 				continue
 			}
+			if fd.Recv != nil {
+				if len(fd.Recv.List) == 1 && len(fd.Recv.List[0].Names) == 1 {
+					ast.Inspect(fd.Body, func(n ast.Node) bool {
+						if call, ok := n.(*ast.CallExpr); ok {
+							if is, _ := isCtorCall(call); is {
+								builders[fd.Name.Name] = &builder{fd: fd, recv: fd.Recv.List[0].Names[0].Name, call: call}
+								return false
+							}
+						}
+						return true
+					})
+				}
+				continue
+			}
+			// a constructor is any package-level function that builds a callable function (whatever it is called)
 			ast.Inspect(fd.Body, func(n ast.Node) bool {
 				call, ok := n.(*ast.CallExpr)
 				if !ok {
 					return true
 				}
-				name := pl.calleeName(call)
-				if name != pkgSchema+".NewCallableFunction" && name != pkgSchema+".NewDynamicCallableFunction" {
+				is, dynamic := isCtorCall(call)
+				if !is {
 					return true
 				}
-				bf := &builtinFn{ctor: fd, call: call, dynamic: strings.HasSuffix(name, "NewDynamicCallableFunction")}
-				bf.id, _ = pl.constStr(call.Args[0])
-				if cl, ok := call.Args[1].(*ast.CompositeLit); ok {
-					for _, el := range cl.Elts {
-						k, p := pl.schemaKindPattern(el)
-						bf.paramKinds = append(bf.paramKinds, k)
-						bf.paramPats = append(bf.paramPats, p)
-					}
-				}
-				if bf.dynamic {
-					bf.handler = call.Args[3]
-				} else {
-					bf.outKind, bf.outPattern = pl.schemaKindPattern(call.Args[2])
-					bf.handler = call.Args[5]
-				}
-				out = append(out, bf)
+				out = append(out, mk(fd, call, dynamic, ident))
 				return false
 			})
+		}
+	}
+	if len(builders) > 0 {
+		for _, f := range pl.pkg.Syntax {
+			for _, d := range f.Decls {
+				fd, ok := d.(*ast.FuncDecl)
+				if !ok || fd.Body == nil || fd.Recv != nil {
+					continue
+				}
+				ast.Inspect(fd.Body, func(n ast.Node) bool {
+					call, ok := n.(*ast.CallExpr)
+					if !ok {
+						return true
+					}
+					sel, ok := call.Fun.(*ast.SelectorExpr)
+					if !ok {
+						return true
+					}
+					b := builders[sel.Sel.Name]
+					lit, isLit := sel.X.(*ast.CompositeLit)
+					if b == nil || !isLit {
+						return true
+					}
+					fields := map[string]ast.Expr{}
+					for _, el := range lit.Elts {
+						if kv, ok := el.(*ast.KeyValueExpr); ok {
+							if k, ok := kv.Key.(*ast.Ident); ok {
+								fields[k.Name] = kv.Value
+							}
+						}
+					}
+					sub := func(e ast.Expr) ast.Expr {
+						if se, ok := e.(*ast.SelectorExpr); ok {
+							if x, ok := se.X.(*ast.Ident); ok && x.Name == b.recv {
+								if v, ok := fields[se.Sel.Name]; ok {
+									return v
+								}
+							}
+						}
+						return e
+					}
+					_, dynamic := isCtorCall(b.call)
+					out = append(out, mk(fd, b.call, dynamic, sub))
+					return false
+				})
+			}
 		}
 	}
 	// attach SSA handlers
@@ -146,7 +226,7 @@ func (pl *plit) schemaKindPattern(e ast.Expr) (string, string) {
 // C18.R1 handler totality.
 func c18R1(c *Ctx) {
 	const rule = "C18.R1"
-	c.explain("C18.R1 in every built-in function handler: a string/slice index with a constant is below the minimum length implied by the parameter's declared pattern; an index into a slice is the index of the range loop over a slice of the same length; a float-to-integer conversion is dominated by comparisons that bound the operand on both sides (Go's conversion of an out-of-range float is implementation-defined); no unchecked type assertion, no integer division by a non-constant")
+	c.explain("C18.R1 in every built-in function handler: a string/slice index with a constant is below the minimum length implied by the parameter's declared pattern; an index into a slice is the index of the range loop over a slice of the same length; a float-to-integer conversion is dominated by comparisons that bound the operand on both sides (Go's conversion of an out-of-range float is implementation-defined); no unchecked type assertion, no integer division by a non-constant; a precision / repeat count / allocation size taken from an integer parameter is bounded above by a constant on the dominating edge")
 	fns := c.builtinFns()
 	n := 0
 	for _, bf := range fns {
@@ -320,6 +400,89 @@ func c18R1(c *Ctx) {
 				n++
 				c.bad(rule, mk("panic"), c.instrPos(x), "explicit panic in a handler")
 			}
+			// size arguments: a precision / repeat count / allocation length taken from an integer parameter must be
+			// bounded above on the dominating edge (arguments are not checked against the parameter schema at call
+			// time, and these library calls allocate in proportion to the value or panic near the integer limits)
+			var size ssa.Value
+			what := ""
+			switch x := r.I.(type) {
+			case *ssa.Call:
+				switch calleeName(x.Common()) {
+				case "strconv.FormatFloat", "strconv.AppendFloat":
+					args := x.Common().Args
+					size, what = args[len(args)-2], "precision of "+calleeName(x.Common())
+				case "strings.Repeat", "bytes.Repeat":
+					size, what = x.Common().Args[1], "count of "+calleeName(x.Common())
+				}
+			case *ssa.MakeSlice:
+				size, what = x.Cap, "capacity of make"
+			}
+			if size == nil {
+				return
+			}
+			var param *ssa.Parameter
+			fromParam := derivesFrom(size, func(v ssa.Value) bool {
+				if cl, ok := v.(*ssa.Call); ok && isBuiltinCall(cl, "len") {
+					return false
+				}
+				pp, ok := v.(*ssa.Parameter)
+				if !ok || pp.Parent() != h {
+					return false
+				}
+				if bt, ok := pp.Type().Underlying().(*types.Basic); !ok || bt.Info()&types.IsInteger == 0 {
+					return false
+				}
+				param = pp
+				return true
+			})
+			if !fromParam || param == nil {
+				return
+			}
+			risky++
+			n++
+			key := mk("size-argument")
+			bounded := false
+			eachInstr(h, func(r2 instrRef) {
+				ifi, ok := r2.I.(*ssa.If)
+				if !ok {
+					return
+				}
+				cnd, ok := ifi.Cond.(*ssa.BinOp)
+				if !ok {
+					return
+				}
+				strip := func(v ssa.Value) ssa.Value {
+					if cv, ok := v.(*ssa.Convert); ok {
+						return cv.X
+					}
+					return v
+				}
+				op := cnd.Op
+				var k *ssa.Const
+				if strip(cnd.X) == ssa.Value(param) {
+					k, _ = cnd.Y.(*ssa.Const)
+				} else if strip(cnd.Y) == ssa.Value(param) {
+					k, _ = cnd.X.(*ssa.Const)
+					op = flipCmp(op)
+				}
+				if k == nil {
+					return
+				}
+				for succ := 0; succ < 2; succ++ {
+					if !edgeDominates(r2.Block, succ, r.Block) {
+						continue
+					}
+					o := op
+					if succ == 1 {
+						o = negateCmp(o)
+					}
+					if o == token.LSS || o == token.LEQ {
+						bounded = true
+					}
+				}
+			})
+			c.verdict(bounded, rule, key, c.instrPos(r.I), "the "+what+" comes from parameter "+param.Name()+", which is bounded above by a constant on the dominating edge",
+				"the "+what+" comes from the integer parameter "+param.Name()+" without an upper bound: the library call allocates in proportion to it and panics near the integer limits (arguments are not checked against the parameter schema when the function is called)")
 		})
 		if risky == 0 {
 			c.ok(rule, "handler:"+bf.id, c.pos(h.Pos()), "no partial operation", false)
